@@ -4,7 +4,7 @@
 # packages, and that the demonstration fails with the patch and passes without it; then stores it under /verif/seeded/<seed-id>/.
 out=$1; sid=$2; prop=$3; demopkg=$4; shift 4
 export GOFLAGS=-mod=mod GOPROXY=off GOSUMDB=off
-wt=/tmp/wt-sens
+wt=${WT:-/tmp/wt-sens}
 cd $wt && git checkout -q -- . && git clean -fdq && git checkout -q --detach $(git -C /repo rev-parse HEAD)
 demo=$(ls $out/*_test.go | head -1)
 res="{}"
